@@ -6,7 +6,7 @@ from vp import schema
 
 XSI_NIL = '{http://www.w3.org/2001/XMLSchema-instance}nil'
 CHECKED = ('dateTime', 'boolean', 'integer', 'nonNegativeInteger', 'positiveInteger', 'PositiveInteger',
-           'unsignedShort', 'duration')
+           'unsignedShort', 'unsignedByte', 'unsignedInt', 'unsignedLong', 'duration')
 BAD_ENUM = 'not-in-the-enumeration'
 
 
